@@ -215,3 +215,54 @@ Definition holds_dict (c : dcase) : bool :=
       | _, _, _, _ => false
       end && list_eqb Bool.eqb (dc_top c) [true; true; true; true]
   end.
+
+(* ------------------------------------------------------------------ family hist *)
+(* A HISTORY of uses of the strategies inside one process: calls sd[name](size[, alpha]) with the list each
+   returned (copied at once) and whether the returned object IS an object returned earlier; between calls the
+   harness mutates an earlier result in place or runs overlap_add.list(..., wnd=sd[name], normalize=True)
+   (HOther: no observation of its own).  The strategies are pure functions: the model has no state. *)
+Inductive hstep :=
+| HCall (sd : sdict) (name : string) (size : Z) (alpha : option pyval) (res : option (list pyval)) (aliased : bool)
+| HOther.
+Record hcase := HC {
+  h_cos : list (float * float); h_sin : list (float * float); h_pow : list (float * float * float);
+  h_steps : list hstep }.
+
+Definition corr_hist (c : hcase) : bool :=
+  forallb (fun s =>
+    match s with
+    | HCall sd nm size a res _ =>
+        res_eqb (call (oracle (h_cos c) (h_sin c) (h_pow c)) tmpl_window tmpl_wsymm win_table sd nm size a) res
+    | HOther => true
+    end) (h_steps c).
+
+Definition alpha_eqb (a b : option pyval) : bool := option_eqb pyval_eqb a b.
+
+(* every call returns a fresh list; equal arguments give bit-equal lists whatever happened in between; a periodic
+   window is still the exact prefix of the symmetric one of size+1 asked for in the same history; lengths *)
+Definition holds_hist (c : hcase) : bool :=
+  let calls := h_steps c in
+  forallb (fun s =>
+    match s with
+    | HCall sd nm size a res al =>
+        negb al &&
+        match primary_of nm, res with
+        | Some _, Some l => (size <? 0)%Z || Nat.eqb (List.length l) (Z.to_nat size)
+        | _, _ => true
+        end &&
+        forallb (fun t =>
+          match t with
+          | HCall sd' nm' size' a' res' _ =>
+              if sdict_eqb sd sd' && String.eqb nm nm' && (size =? size')%Z && alpha_eqb a a'
+              then res_eqb res res'
+              else if sdict_eqb sd Window && sdict_eqb sd' Wsymm && String.eqb nm nm' && (size' =? size + 1)%Z
+                      && (1 <=? size)%Z && alpha_eqb a a'
+              then match primary_of nm, res, res' with
+                   | Some _, Some w, Some s' => list_eqb pyval_eqb w (firstn (Z.to_nat size) s')
+                   | _, _, _ => true
+                   end
+              else true
+          | HOther => true
+          end) calls
+    | HOther => true
+    end) calls.
